@@ -209,6 +209,19 @@ func streamClearsig(g *core.G) {
 		law(signed[:sigStart]+foreign+signed[sigStart:], krBoth, true, sid, "reject")
 		law(signed+"\n"+foreign, krBoth, true, sid, "accept")
 		law(signed+foreign, krBoth, true, sid, "accept")
+		// a second, complete and validly signed document (same signer, the other key of the keyring,
+		// an outsider; another text or the same one replayed) behind the first: still only the
+		// first block's text, attributed to the first block's signer
+		for _, k2 := range []*openpgp.Entity{signer, ks[0], ks[1], ks[2]} {
+			t2 := r.Pick([]string{"Smuggled: yes\n", text, "Package: other\nVersion: 2\n\nPackage: third\n"})
+			second := clearSign(k2, t2)
+			sep := r.Pick([]string{"", "\n", "\r\n", "\n\n"})
+			law(signed+sep+second, krBoth, true, sid, "accept")
+			if r.Chance(1, 3) {
+				law(signed+sep+second, nil, false, "none", "accept")
+				emitClearsig(g, second+sep+signed, krBoth, true)
+			}
+		}
 		// signature removed / replaced by another document's signature
 		law(signed[:sigStart], krBoth, true, sid, "reject")
 		other := clearSign(signer, text+"Extra: 1\n")
@@ -224,7 +237,7 @@ func init() {
 		ID: "C11", PropsModule: "GoDebian.Props.C11",
 		Facts: []string{"fingerprint:control.NewParagraphReader", "fingerprint:control.ParagraphReader.decodeClearsig", "fingerprint:control.ParagraphReader.Signer", "fingerprint:control.Decoder.Signer", "fingerprint:control.NewDecoder"},
 		Streams: []core.Stream{{Name: "clearsig", Gen: streamClearsig,
-			Domain: "generated deb822 documents (1-2 paragraphs, continuation and dash-escaped lines) clearsigned with one of two fresh RSA keys x keyrings (signer only, both, other key, empty, nil) and the unsigned text; per signed text substitution, deletion, insertion and truncation at sampled (quick: ~25 positions) or all (thorough) offsets; foreign text spliced before the armor (with and without blank line), inside the signed text, before the signature and after the armor; signature removed; signature of another document; model (with the real Decode / CheckDetachedSignature answers) vs NewParagraphReader+All+Signer and the Decoder entry point; law-clearsig: valid accepted faithfully with the signer's id, outsider/empty keyring rejected, damaged variants either rejected or read as exactly the signed paragraphs, changed text characters rejected, no signer for unsigned input"}},
+			Domain: "generated deb822 documents (1-2 paragraphs, continuation and dash-escaped lines) clearsigned with one of two fresh RSA keys x keyrings (signer only, both, other key, empty, nil) and the unsigned text; per signed text substitution, deletion, insertion and truncation at sampled (quick: ~25 positions) or all (thorough) offsets; foreign text spliced before the armor (with and without blank line), inside the signed text, before the signature and after the armor; a second complete signed document (by the same key, the other keyring key or an outsider; other text or a replay) appended behind the first; signature removed; signature of another document; model (with the real Decode / CheckDetachedSignature answers) vs NewParagraphReader+All+Signer and the Decoder entry point; law-clearsig: valid accepted faithfully with the signer's id, outsider/empty keyring rejected, damaged variants either rejected or read as exactly the signed paragraphs, changed text characters rejected, no signer for unsigned input"}},
 		Impl: clearsigImpl, TrustedBase: tb,
 		Readable: func(op string, a []string) string {
 			return fmt.Sprintf("%s(%q, keyring=%s) %v", op, clipStr(core.MustUnHex(a[0]), 300), a[1], a[len(a)-1])
